@@ -91,7 +91,9 @@ class BcryptSHA256Hasher(PasswordHasher):
         return BcryptSHA256PHCV2(
             id="bcrypt-sha256",
             version_=2,
-            type=info.prefix,
+            # version 2 of the format names the 2b variant only (2a / 2y salts give the
+            # same digest; a string saying t=2a / t=2y is refused by other readers)
+            type="2b",
             rounds=info.rounds,
             hash=info.hash,
             salt=info.salt,
